@@ -135,8 +135,31 @@ def run(ctx):
                     break
             break
     inp = ctx.write_ndjson("cases.ndjson", cases)
-    gr = ctx.go_test("tsdb", ["db_replay_test.go", "c03_crash_test.go"], "^TestVerifC03Crash$", env={"VERIF_IN": inp}, timeout="120m")
+    traces_out = ctx.tmp("real_traces.ndjson")
+    gr = ctx.go_test("tsdb", ["db_replay_test.go", "c03_crash_test.go"], "^TestVerifC03Crash$",
+                     env={"VERIF_IN": inp, "C03_TRACES_OUT": traces_out}, timeout="120m")
     ctx.absorb(gr, label="C03 crash runs")
+    # (T) the hook traces of the dry runs must be behaviours of Crash.tla (Trace_Crash.tla, one TLC run per OOO window)
+    if os.path.exists(traces_out):
+        by_w = {}
+        for line in open(traces_out):
+            r = json.loads(line)
+            w = [s for s in cases[r["id"]]["w"] if s["a"] != "End"]
+            by_w.setdefault(w[0]["W"], []).append({"id": r["id"], "w": w, "tr": r["tr"]})
+        accepted = 0
+        for wnd, trs in sorted(by_w.items()):
+            tf = ctx.write_ndjson("trace_w%d.ndjson" % wnd, trs)
+            tv = ctx.tlc("crash", "Trace_Crash", "Trace.cfg", workers=1, files={"trace.ndjson": tf}, constants={"W": wnd}, timeout=900)
+            ctx.account(tv)
+            ok = {x["id"] for x in tv.tagged.get("@@OK", [])}
+            accepted += len(ok)
+            for t in trs:
+                if t["id"] not in ok:
+                    ctx.drift += 1
+                    ctx.log("model drift: the real hook trace of workload %d is not a behaviour of Crash.tla (Trace_Crash.tla)" % t["id"])
+        ctx.traces += accepted
+        ctx.extra["traces_accepted_by_Trace_Crash"] = accepted
+        ctx.log("Trace_Crash: %d of %d real traces accepted" % (accepted, sum(len(v) for v in by_w.values())))
     ctx.assumptions += [META["note"]]
     return ctx.finish(rule="crash classes of the exhaustive config and seeded walks through the scripted scenarios (random crash point, "
                            "second crash during recovery); per complete workload the (site, hit) pairs of its real hook trace; each "
